@@ -148,6 +148,12 @@ static void kdf(void)
         else { ascon_kdf_state_t s; ascon_kdf_init(&s, key, kl, cust, cl, ol); ascon_kdf_squeeze(&s, o, ol); ascon_kdf_free(&s); }
         hx_stat("evaluations", 1);
         if (memcmp(o, e, ol) || !hx_buf_ok(o, ol)) hx_fail(A ? "kdfa:incremental" : "kdf:incremental", "differs from cXOF('KDF'): keylen=%d customlen=%d outlen=%zu pat=%d", kl, cl, ol, pat);
+        /* re-use: a state used for other parameters (key and custom exchanged, other length), then re-initialised for these ones, split squeeze */
+        memset(o, 0xAA, ol);
+        if (A) { ascon_kdfa_state_t s; ascon_kdfa_init(&s, cust, cl, key, kl, 17); ascon_kdfa_squeeze(&s, e + 150, 9); ascon_kdfa_reinit(&s, key, kl, cust, cl, ol); ascon_kdfa_squeeze(&s, o, ol / 3); ascon_kdfa_squeeze(&s, o + ol / 3, ol - ol / 3); ascon_kdfa_free(&s); }
+        else { ascon_kdf_state_t s; ascon_kdf_init(&s, cust, cl, key, kl, 17); ascon_kdf_squeeze(&s, e + 150, 9); ascon_kdf_reinit(&s, key, kl, cust, cl, ol); ascon_kdf_squeeze(&s, o, ol / 3); ascon_kdf_squeeze(&s, o + ol / 3, ol - ol / 3); ascon_kdf_free(&s); }
+        hx_stat("evaluations", 1);
+        if (memcmp(o, e, ol) || !hx_buf_ok(o, ol)) hx_fail(A ? "kdfa:reinit" : "kdf:reinit", "after reinit differs from cXOF('KDF'): keylen=%d customlen=%d outlen=%zu pat=%d", kl, cl, ol, pat);
         hx_free(o);
     }
     hx_sample("kdf a=%d: key 0..%d x custom 0..%d x outlen set, one-shot and init+squeeze", A, mk, mc);
